@@ -80,17 +80,21 @@ func run(raw json.RawMessage) (hx.Case, error) {
 	var outs []roundOut
 	var rounds []string
 	maxDelay, anyBlocked, singleDwell, fullLane := int64(0), false, false, false
+	panicked := false
 	for _, r := range in.Rounds {
 		var o roundOut
 		var accs []string
 		for _, a := range r.Acc {
 			ok := p.CanAccept()
 			if ok {
-				if a.Plain && a.Delay == 0 {
-					p.Accept(a.ID)
-				} else {
-					p.AcceptWithDelay(a.ID, int(a.Delay))
-				}
+				pk, _ := hx.Try(func() {
+					if a.Plain && a.Delay == 0 {
+						p.Accept(a.ID)
+					} else {
+						p.AcceptWithDelay(a.ID, int(a.Delay))
+					}
+				})
+				panicked = panicked || pk
 				if a.Delay > maxDelay {
 					maxDelay = a.Delay
 				}
@@ -104,9 +108,16 @@ func run(raw json.RawMessage) (hx.Case, error) {
 			accs = append(accs, hx.T(hx.N(a.ID), hx.Z(a.Delay)))
 		}
 		sk := &sink{script: r.Sink, dflt: r.Dflt}
-		o.Moved = p.Tick(sk)
+		pk, _ := hx.Try(func() { o.Moved = p.Tick(sk) })
+		panicked = panicked || pk
 		o.Pushed = sk.pushed
 		var snap []string
+		if panicked {
+			// a run-time panic is reported as a record outside the geometry, which no
+			// well-formed snapshot contains
+			o.Snap = append(o.Snap, stageOut{in.W, in.N, 0, 0})
+			snap = append(snap, hx.App("mk_pitem", hx.Nat(in.W), hx.Nat(in.N), hx.N(0), hx.Z(0)))
+		}
 		for _, s := range p.Stages() {
 			o.Snap = append(o.Snap, stageOut{s.Lane, s.Stage, s.Item, s.CycleLeft})
 			if s.Lane < 0 || s.Stage < 0 {
